@@ -296,3 +296,38 @@ func vh_toFromMontgomery() {
 	r.FromMontgomery(&m)
 	verif.Assert(val52(&r).Lt(fL()) && verif.ModEq(val52(&r), va, fL()), "FromMontgomery(ToMontgomery(a)) = a mod L")
 }
+
+// exponent arithmetic for the addition-chain obligation (c05_more.go): the limbs hold an EXPONENT in radix 2^29
+func expAdd(s, a, b *unpackedScalar) {
+	var carry uint32
+	for i := 0; i < 9; i++ {
+		t := a[i] + b[i] + carry
+		s[i] = t & (1<<29 - 1)
+		carry = t >> 29
+	}
+}
+
+// ---- "log domain" helpers (c05_more.go): every limb holds one coordinate of an exponent vector mod 2^24 ----
+const lgN = 9 // limbs; limb 0 is not read (the constant One lands there), limbs 1..3 are generators, limb 8 counts R
+const lgMask = 1<<24 - 1
+
+func lgLin(s, a, b *unpackedScalar, ca, cb, dR int64) {
+	var r unpackedScalar
+	for i := 0; i < lgN; i++ {
+		var bi uint32
+		if b != nil {
+			bi = b[i]
+		}
+		r[i] = (uint32(ca)*a[i] + uint32(cb)*bi) & lgMask
+	}
+	r[lgN-1] = (r[lgN-1] + uint32(dR)) & lgMask
+	*s = r
+}
+
+func lgCoord(s *unpackedScalar, i int) int64 {
+	v := s[i] & lgMask
+	if v >= 1<<23 {
+		return int64(v) - 1<<24
+	}
+	return int64(v)
+}
